@@ -14,8 +14,10 @@
 package main
 
 import (
+	"bytes"
 	"context"
 	"crypto/ed25519"
+	"encoding/binary"
 	"fmt"
 	"net/netip"
 	"runtime/debug"
@@ -830,6 +832,8 @@ type netScenario struct {
 	V, O, B, O2 *p2pnet.Node // O2: a second peer (own identity) behind the offender's IP
 	served      atomic.Int64 // V's "ok" handler invocations for requests from O
 	servedB     atomic.Int64
+	quic        bool
+	bigSeen     atomic.Int64
 	syncInvalid atomic.Int64 // invalid sync-style requests seen by the victim's handler
 	hist        []string
 	hmu         sync.Mutex
@@ -880,7 +884,7 @@ func (ns *netScenario) startNode(ip string, victim bool, blacklist []string) (*p
 		ip = ip[:i]
 	}
 	return p2pnet.StartNode(p2pnet.NodeOptions{
-		IP: ip, Seed: seed, Blacklist: blacklist,
+		IP: ip, Seed: seed, Blacklist: blacklist, QUIC: ns.quic,
 		Setup: func(c *p2p.ExtendedConnection) {
 			lim, pen := 1<<30, 0
 			if victim {
@@ -896,6 +900,18 @@ func (ns *netScenario) startNode(ip string, victim bool, blacklist []string) (*p
 				}
 				w.Write([]byte("ok"))
 			}, p2p.WithRPCMessageCounter(lim, pen)))
+			// large but well-formed traffic (a sync batch of blocks): answers with as many bytes as the
+			// first four bytes of the request say
+			must(c.RegisterRPCHandler("big", func(w p2p.ResponseWriter, req *p2p.Request) {
+				n := 0
+				if len(req.Data) >= 4 {
+					n = int(binary.BigEndian.Uint32(req.Data[:4]))
+				}
+				if victim {
+					ns.bigSeen.Add(int64(len(req.Data)))
+				}
+				w.Write(bytes.Repeat([]byte{0x5a}, n))
+			}, p2p.WithRPCMessageCounter(1<<30, 0)))
 			// sync-style endpoint: like pkg/consensus/sync it bans the sender of an invalid request
 			must(c.RegisterRPCHandler("getBlocksFromID", func(w p2p.ResponseWriter, req *p2p.Request) {
 				if len(req.Data) != 34 || req.Data[0] != 0x0a || req.Data[1] != 0x20 { // {1: bytes(32)}
@@ -1021,6 +1037,8 @@ func runNetBan(k *mon.Case) {
 	}
 	r := k.R
 	withB := r.Intn(2) == 0
+	// one case in three: the offender is connected twice (TCP one way, QUIC the other way)
+	ns.quic = r.Intn(3) == 0
 	var err error
 	defer ns.stop()
 	if ns.V, err = ns.startNode("127.0.0.2", true, nil); err == nil {
@@ -1037,7 +1055,19 @@ func runNetBan(k *mon.Case) {
 	bg := context.Background()
 	// who dials whom is part of the case
 	oDials := r.Intn(2) == 0
-	if oDials {
+	twice := false
+	if ns.quic {
+		// one peer, two connections with different remote addresses (the victim dials the offender
+		// over QUIC while the offender dials the victim over TCP); a ban must leave none of them
+		if twice = p2pnet.DoubleConnect(ns.V, ns.O, 12); twice {
+			k.Count("offender_connected_twice(tcp+quic)", 1)
+		} else {
+			k.Count("double_connection_not_established", 1)
+		}
+	}
+	if twice {
+		err = nil
+	} else if oDials {
 		err = ns.O.ConnectTo(bg, ns.V)
 	} else {
 		err = ns.V.ConnectTo(bg, ns.O)
@@ -1227,8 +1257,17 @@ func runNetBan(k *mon.Case) {
 			disconnected = waitUntil(20*time.Second, func() bool { return !ns.V.Connected(ns.O) })
 		}
 	}
+	if !disconnected && !ns.vSeesOfrom(offIP) {
+		// the connections from the banned IP are gone; what V holds is a new connection that the
+		// offender's host opened from another source address (a QUIC dial from an unbound socket
+		// leaves from 127.0.0.1 on this machine): not a connection "involving that IP"
+		ns.log("connections from %s closed; V now sees O as %v", offIP, ns.remoteAddrsAtV())
+		k.Count("offender_reconnected_from_another_source_ip(not judged)", 1)
+		_ = ns.V.Conn.Disconnect(ns.O.ID())
+		disconnected = true
+	}
 	if !disconnected {
-		ns.log("still connected 10 s after the ban; a further request was served by V: %v (reply %q, err %v)", servedAfterBan, d, e)
+		ns.log("still connected 10 s after the ban (V sees O as %v); a further request was served by V: %v (reply %q, err %v)", ns.remoteAddrsAtV(), servedAfterBan, d, e)
 		k.Violation("banned-peer-not-disconnected:"+ns.trigger, "the sender's IP is banned but the connection to it stays open (and keeps being served)",
 			ns.wit(map[string]any{"request_served_after_ban": servedAfterBan, "reply": d, "error": fmt.Sprint(e), "banPeer_errors_logged_by_victim": ns.V.Logger.Count("banpeer-error")}))
 		// continue with the remaining clauses from a disconnected state
@@ -1442,6 +1481,39 @@ func runNetLegal(k *mon.Case) {
 	if !ns.V.Connected(ns.O) {
 		k.Violation("legal-traffic-disconnected", "a peer that only sent legal traffic was disconnected", ns.wit(nil))
 		return
+	}
+	// large well-formed messages in both directions (request body and response body of 1.5-4 MiB):
+	// size alone is no offence
+	for i := 0; i < 2; i++ {
+		reqSize, respSize := 64, 64
+		if i == 0 {
+			reqSize = (3 << 19) + k.R.Intn(5<<19)
+		} else {
+			respSize = (3 << 19) + k.R.Intn(5<<19)
+		}
+		body := bytes.Repeat([]byte{0x33}, reqSize)
+		binary.BigEndian.PutUint32(body[:4], uint32(respSize))
+		got, err := ns.request(ns.O, ns.V, "big", body)
+		k.Count("large_messages_exchanged", 1)
+		ns.log("large message %d: request %d bytes, response %d bytes expected, %d received, err=%v", i, reqSize, respSize, len(got), err)
+		for _, side := range []struct {
+			name string
+			n    *p2pnet.Node
+			ip   string
+		}{{"receiver-of-the-large-request", ns.V, "127.0.0.3"}, {"receiver-of-the-large-response", ns.O, "127.0.0.2"}} {
+			if sc, ex, has := side.n.Conn.VerifPeer().VerifGater().Score(side.ip); has {
+				k.Violation("legal-traffic-penalised:large-well-formed-message:"+side.name, "a well-formed message of a few MiB left a penalty for its sender",
+					ns.wit(map[string]any{"score": sc, "expiration": ex, "request_bytes": reqSize, "response_bytes": respSize, "error": fmt.Sprint(err)}))
+				return
+			}
+		}
+		if !ns.V.Connected(ns.O) {
+			k.Violation("legal-traffic-disconnected:large-well-formed-message", "a peer that sent a large well-formed message was disconnected", ns.wit(map[string]any{"request_bytes": reqSize, "response_bytes": respSize}))
+			return
+		}
+		if err != nil || len(got) != respSize {
+			k.Count("large_message_not_answered_in_full(observed, C17)", 1)
+		}
 	}
 	a := 1 + k.R.Intn(99)
 	ns.V.Conn.ApplyPenalty(ns.O.ID(), a)
